@@ -584,6 +584,92 @@ theorem single_model_linker_eq_model {τ : Type} (M : Interp τ V) (π : σ → 
   | afterRaised u k => simp [LoopOut.map] at hls
   | badErrors u k => simp [LoopOut.map] at hls
 
+/-- How a model's result reads at the linker level: a linker propagates exceptions as they are. -/
+def toL : Result → LResult
+  | .ret b => .ret b
+  | .nonConvergence => .nonConvergence
+  | _ => .raised
+
+theorem lfinish_vs_finish {τ : Type} (π : σ → τ) (sel : List Id) (w : World σ) (r : LoopOut σ)
+    (hπstamp : ∀ u s, π (stampSubs L t s sel u) = π u) :
+    π (lfinish L o n t sel w r).1.user = (finish o n t (w.map π) (r.map π)).1.user ∧
+    (lfinish L o n t sel w r).2 = toL (finish o n t (w.map π) (r.map π)).2 ∧
+    ((∃ u s k, r = .done u s k) → (lfinish L o n t sel w r).1.map π = (finish o n t (w.map π) (r.map π)).1) := by
+  cases r with
+  | done u s k =>
+    refine ⟨?_, ?_, fun _ => ?_⟩
+    · simp only [lfinish, finish, LoopOut.map, stamp_user]
+      exact hπstamp u s
+    · simp only [lfinish, finish, LoopOut.map]
+      split <;> rfl
+    · simp only [lfinish, finish, LoopOut.map, stamp_map, withUser_map, hπstamp]
+  | evalRaised u k =>
+    refine ⟨?_, rfl, fun ⟨_, _, _, h⟩ => nomatch h⟩
+    simp only [lfinish, finish, LoopOut.map]
+    split <;> simp [stamp_user, withUser, World.map]
+  | nonFinite u k =>
+    exact ⟨by simp [lfinish, finish, LoopOut.map, stamp_user, withUser, World.map], rfl, fun ⟨_, _, _, h⟩ => nomatch h⟩
+  | afterRaised u k =>
+    exact ⟨by simp [lfinish, finish, LoopOut.map, withUser, World.map], rfl, fun ⟨_, _, _, h⟩ => nomatch h⟩
+  | badErrors u k =>
+    exact ⟨by simp [lfinish, finish, LoopOut.map, withUser, World.map], rfl, fun ⟨_, _, _, h⟩ => nomatch h⟩
+
+/-- **Single-model linker ≡ model, on every path.**  Under the same simulation hypotheses as
+    `single_model_linker_eq_model` but with *no* assumption on how the passes go: the linker's projected values
+    always equal the model's, its result is the model's result read at the linker level (`True`/`False`/
+    NonConvergenceError the same; any exception propagated), and whenever the model's loop ends without an
+    exception (converged, failed, or skipped) the whole projected world — values, statuses, iteration counts — is
+    the model's.  The model is taken with non-finite detection off (`blind`): the linker has none. -/
+theorem single_model_linker_eq_model_all {τ : Type} (M : Interp τ V) (π : σ → τ) (sel : List Id) (w : World σ)
+    (hsim : Sim (asInterp L sel) (blind M) π)
+    (hreset : (resetAll L t sel w.user).2 = false)
+    (hπreset : π (resetAll L t sel w.user).1 = π w.user)
+    (hπstamp : ∀ u s, π (stampSubs L t s sel u) = π u)
+    (h0 : o.offset = 0) (hmm : ¬ o.minIter > o.maxIter) (hfeas : Feasible M n t) :
+    π (lSolveT L o n t sel w).1.user = (solveT (blind M) o n t (w.map π)).1.user ∧
+    (lSolveT L o n t sel w).2 = toL (solveT (blind M) o n t (w.map π)).2 ∧
+    (((∃ b, (solveT (blind M) o n t (w.map π)).2 = .ret b) ∨ (solveT (blind M) o n t (w.map π)).2 = .nonConvergence) →
+      (lSolveT L o n t sel w).1.map π = (solveT (blind M) o n t (w.map π)).1) := by
+  have hacc : Accepted (blind M) o n t := ⟨hmm, hfeas, Or.inl h0⟩
+  have hseedM : seed (blind M) o t (w.map π).user = π w.user := by simp [seed, h0, World.map]
+  rw [solveT_accepted (blind M) o n t (w.map π) hacc, hseedM]
+  have hlseed : lSolveT L o n t sel w = lCore L o n t sel w w.user := by simp [lSolveT, h0]
+  rw [hlseed]
+  unfold lCore solveCore
+  have e1 : resetAll L t sel w.user = ((resetAll L t sel w.user).1, false) := Prod.ext rfl hreset
+  rw [e1]
+  simp only
+  have hbS := hsim.before o (resetAll L t sel w.user).1 t
+  rw [hπreset] at hbS
+  have hnb : ¬ (o.errors = .raise ∧ (blind M).allFinite ((blind M).check (π w.user) t) = false) := by
+    simp [blind]
+  rw [if_neg hnb, ← hbS]
+  simp only [asInterp]
+  rcases hb : L.solveBefore o (resetAll L t sel w.user).1 sel t with ⟨u3, b⟩
+  cases b with
+  | true =>
+    simp only [toL]
+    refine ⟨rfl, trivial, ?_⟩
+    rintro (⟨b, h⟩ | h) <;> cases h
+  | false =>
+    simp only
+    have hls := loop_sim hsim o t o.maxIter.toNat 1 u3 (L.check w.user sel t)
+    have hchk : L.check w.user sel t = (blind M).check (π w.user) t := hsim.check w.user t
+    rw [hchk] at hls ⊢
+    rw [← hls]
+    obtain ⟨a, b, c⟩ := lfinish_vs_finish L o n t π sel w
+      (loop (asInterp L sel) o t o.maxIter.toNat 1 u3 ((blind M).check (π w.user) t)) hπstamp
+    refine ⟨a, b, ?_⟩
+    intro hres
+    apply c
+    generalize loop (asInterp L sel) o t o.maxIter.toNat 1 u3 ((blind M).check (π w.user) t) = r at hres ⊢
+    cases r with
+    | done u s k => exact ⟨u, s, k, rfl⟩
+    | evalRaised u k => rcases hres with ⟨b, h⟩ | h <;> simp [finish, LoopOut.map] at h
+    | nonFinite u k => rcases hres with ⟨b, h⟩ | h <;> simp [finish, LoopOut.map] at h
+    | afterRaised u k => rcases hres with ⟨b, h⟩ | h <;> simp [finish, LoopOut.map] at h
+    | badErrors u k => rcases hres with ⟨b, h⟩ | h <;> simp [finish, LoopOut.map] at h
+
 /-! ### Non-vacuity -/
 
 /-- Two submodels `0`, `1` (state = their values and counters); the linker itself adds nothing. -/
@@ -781,6 +867,25 @@ example : ((lSolveT exL1 { maxIter := 10 } 5 2 [0] ⟨(0, -1), List.replicate 5 
     (by decide) (swapLt 4 (by unfold Good; decide)) (by unfold Good; decide) (by decide)
 example : lSolveT exL1 { maxIter := 10 } 5 2 [0] ⟨(0, -1), List.replicate 5 .unsolved, List.replicate 5 (-1)⟩ =
     (⟨(3, 4), [.unsolved, .unsolved, .solved, .unsolved, .unsolved], [-1, -1, 4, -1, -1]⟩, .ret true) := by decide
+
+/-- `single_model_linker_eq_model_all` on a *failing* run (`max_iter = 3`: 'F', count 3, `False`) — the path the
+    converging-only theorem does not cover. -/
+example :
+    Prod.fst (lSolveT exL1 { maxIter := 3, failRaise := false } 5 2 [0]
+        ⟨(0, -1), List.replicate 5 .unsolved, List.replicate 5 (-1)⟩).1.user =
+      (solveT (blind C02.exI) { maxIter := 3, failRaise := false } 5 2
+        ((⟨(0, -1), List.replicate 5 .unsolved, List.replicate 5 (-1)⟩ : World (Nat × Int)).map Prod.fst)).1.user ∧
+    (lSolveT exL1 { maxIter := 3, failRaise := false } 5 2 [0]
+        ⟨(0, -1), List.replicate 5 .unsolved, List.replicate 5 (-1)⟩).2 =
+      toL (solveT (blind C02.exI) { maxIter := 3, failRaise := false } 5 2
+        ((⟨(0, -1), List.replicate 5 .unsolved, List.replicate 5 (-1)⟩ : World (Nat × Int)).map Prod.fst)).2 :=
+  let h := single_model_linker_eq_model_all exL1 { maxIter := 3, failRaise := false } 5 2 C02.exI Prod.fst [0]
+    ⟨(0, -1), List.replicate 5 .unsolved, List.replicate 5 (-1)⟩ exL1_sim (by decide) (by decide) (fun _ _ => rfl) rfl
+    (by decide) (by unfold Feasible; decide)
+  ⟨h.1, h.2.1⟩
+example : lSolveT exL1 { maxIter := 3, failRaise := false } 5 2 [0]
+      ⟨(0, -1), List.replicate 5 .unsolved, List.replicate 5 (-1)⟩ =
+    (⟨(3, 3), [.unsolved, .unsolved, .failed, .unsolved, .unsolved], [-1, -1, 3, -1, -1]⟩, .ret false) := by decide
 
 end Review
 
